@@ -46,6 +46,33 @@ def run(model, tier):
                 raise AnalysisError('%s: only %d (x, t) corner components found in %s (confirmed: %d)'
                                     % (cname, n_pairs, pa['function'], pa.get('min', 1)))
         findings_from(S, ev, PROP, 'C08.dim', res)
+        # root finders: the stopping tolerance on the unknown must have the unknown's dimension
+        from ..report import Finding as _Finding
+        seen_rt = set()
+        for node, xd, xt, given in getattr(ev, 'root_tolerances', []):
+            if not isinstance(xd, Lin):
+                continue
+            d = S.resolve(xd)
+            w = getattr(node, 'where', None)
+            key = (w, node.src[:60])
+            if key in seen_rt:
+                continue
+            seen_rt.add(key)
+            res.obligations += 1
+            res.evaluations += 1
+            ok = S.is_dimless(d) or (given and isinstance(xt, Lin) and S.same(S.resolve(xt), d))
+            if ok:
+                res.discharged += 1
+            else:
+                res.add(_Finding(PROP, 'C08.absolute-tolerance', w[0] if w else cls.module.relpath, w[1] if w else cls.name,
+                                 'root finder tolerance: %s' % node.src[:60],
+                                 "%s: `%s` finds a root in a variable of dimension %s but stops at the %s absolute tolerance %s: a pure number "
+                                 "compared with a dimensional unknown, so the accuracy of the root -- and with it every field computed from "
+                                 "it -- depends on the unit the user expresses the problem in (for small numerical values of the unknown "
+                                 "the root is not resolved at all)"
+                                 % (w[1] if w else cls.name, node.src[:80], S.show(d), 'given' if given else "root finder's default",
+                                    'xtol' if given else 'xtol = 2e-12'),
+                                 line=w[2] if w and len(w) > 2 else 0, construct=node.src[:100]))
         anchored = [nm for nm, d, _ in ev.outputs if nm in outspec and isinstance(d, Lin)]
         unresolved = [nm for nm, d, _ in ev.outputs if nm in outspec and not isinstance(d, Lin) and d is not POLY]
         res.obligations += S.constraints
